@@ -18,6 +18,7 @@ ASSUMPTIONS_COMMON = [
     "nulllog: module loggers of xstate_statemachine replaced by a no-op object (logging has no effect on behaviour)",
     "hashpin: StateNode.__hash__ returns a fixed small int per node (document order), so set iteration order is fixed; eq stays identity",
     "CrossHair set/frozenset interposition removed: harnesses put only concrete objects into sets",
+    "floats are modelled over the reals (CrossHair's IEEE-754 representation switched off): time arithmetic is exact, no rounding",
     "machines are finite instances of the skeleton families in vf/skeletons.py; the solver does not invent tree shapes",
 ]
 
